@@ -56,6 +56,14 @@ theorem C02_prepare_generated (D : Desc) (s : St) :
     prepareParseCommand D s = Gen.prepare_parse_command D s ∧ prepareSearchCommand s = Gen.prepare_search_command D s :=
   ⟨prepareParseCommand_generated D s, prepareSearchCommand_generated D s⟩
 
+
+/-- the walk over the command groups — which entry a table index names, and whether that entry or its group is disabled —
+is the transliteration of `get_command_by_index` / `is_command_disable`, emitted while their bodies have the recorded form
+(translator item T22) -/
+theorem C02_walk_generated (D : Desc) (i : Nat) :
+    cmdByIndex D.groups i = Gen.get_command_by_index D i ∧ disabledByIndex D.groups i = Gen.is_command_disable D i :=
+  ⟨cmdByIndex_generated D i, disabledByIndex_generated D i⟩
+
 /-- the counters this property's theorems keep as unbounded natural numbers (`cmd_group_num`, `cmd_num`, `commands_num`, `index`, `length`, `partial_cntr`) are declared
 `size_t` in `cat.h` — 64 bits on the target, so they cannot wrap on any buffer, table or line that exists; the widths
 are read from the struct declarations on every run (translator item T21) -/
@@ -66,12 +74,5 @@ theorem C02_counters_unbounded :
     Gen.width_obj_index = 64 ∧
     Gen.width_obj_length = 64 ∧
     Gen.width_obj_partial_cntr = 64 := by decide
-
-/-- the walk over the command groups — which entry a table index names, and whether that entry or its group is disabled —
-is the transliteration of `get_command_by_index` / `is_command_disable`, emitted while their bodies have the recorded form
-(translator item T22) -/
-theorem C02_walk_generated (D : Desc) (i : Nat) :
-    cmdByIndex D.groups i = Gen.get_command_by_index D i ∧ disabledByIndex D.groups i = Gen.is_command_disable D i :=
-  ⟨cmdByIndex_generated D i, disabledByIndex_generated D i⟩
 
 end Cat
